@@ -8,7 +8,7 @@ Model of `pylife/stress/equistress.py` (C17), one tensor (one row) at a time.
   ascending) is `IsEigTriple` in `Proofs/Lemmas/Equistress.lean`.
 * Every function is written as the code computes it (same operations in the same order), generic in
   the carrier: the driver runs it at `Float`, the proofs at `ℝ`.
-* `mises` is the REPAIRED formula of `tools/fixes/C17-mises-sum-of-squares.diff` (finding F-13);
+* `mises` is the REPAIRED formula of /repo commit a83078d (finding F-13, class mises-cancellation);
   `misesExpanded` is the formula of the unrepaired code, kept because the theorems state that both
   agree over ℝ and that the expanded radicand is non-negative over ℝ (which floating point violates).
 * The accessor `df.equistress.f()` is `column f rows` (row-wise map, index kept).
